@@ -162,6 +162,54 @@ theorem stage3_rule [DecidableEq M] (hb : BodyOK g p body Inv Cov Qb Qr) (cfg : 
   · simp only [hso]
     exact runList_rule hb _ _ a s hi
 
+/-- invariant-only version of the loop rule: no assumption on the game or on the order oracle -/
+theorem iterate_inv [DecidableEq M] (hb : BodyOK g p body Inv Cov Qb Qr) (cfg : Cfg) (o : Oracle M) (mg : MG M)
+    (hsorts : ∀ a s k, Inv a s → Inv a { s with sorts := k })
+    (a : σ) (s : Eng M) (hi : Inv a s) :
+    Sat (iterate g cfg o p mg body a s) (LoopPost Inv Cov Qb Qr a (fun _ => False)) := by
+  unfold iterate
+  have nof : ∀ {K : P → Prop} {a : σ} {r : Ctl σ ρ × Eng M},
+      LoopPost Inv Cov Qb Qr a K r → LoopPost Inv Cov Qb Qr a (fun _ => False) r :=
+    fun h => h.weaken (fun _ hc => absurd hc id)
+  have h0 : Sat (stage0 g p mg body a s) (LoopPost Inv Cov Qb Qr a (fun _ => False)) := by
+    unfold stage0
+    cases mg.te with
+    | none => exact Sat.ok ⟨hi, fun _ h => h, fun c hc => absurd hc id⟩
+    | some e => exact (tryMove_rule hb e.m a s hi).mono (fun _ h => nof h)
+  have h1 : ∀ a s, Inv a s → Sat (stage1 g p mg body a s) (LoopPost Inv Cov Qb Qr a (fun _ => False)) := by
+    intro a s hi
+    unfold stage1
+    cases mg.pv with
+    | nil => exact Sat.ok ⟨hi, fun _ h => h, fun c hc => absurd hc id⟩
+    | cons m rest =>
+      dsimp only
+      split
+      · exact Sat.ok ⟨hi, fun _ h => h, fun c hc => absurd hc id⟩
+      · exact (tryMove_rule hb m a s hi).mono (fun _ h => nof h)
+  have h3 : ∀ r? a s, Inv a s → Sat (stage3 g cfg o p mg body r? a s) (LoopPost Inv Cov Qb Qr a (fun _ => False)) := by
+    intro r? a s hi
+    unfold stage3
+    dsimp only
+    split
+    · exact (runList_rule hb _ _ a _ (hsorts a s _ hi)).mono (fun _ h => nof h)
+    · exact (runList_rule hb _ _ a s hi).mono (fun _ h => nof h)
+  have h23 : ∀ a s, Inv a s → Sat (stage23 g cfg o p mg body a s) (LoopPost Inv Cov Qb Qr a (fun _ => False)) := by
+    intro a s hi
+    unfold stage23
+    cases respLookup mg.ply s with
+    | error e => exact Sat.error
+    | ok r? =>
+      dsimp only
+      have hfirst : Sat (match r? with
+          | some r => tryMove g p body r a s
+          | none => (.ok (.next a, s) : Except Err (Ctl σ ρ × Eng M)))
+          (LoopPost Inv Cov Qb Qr a (fun _ => False)) := by
+        cases r? with
+        | none => exact Sat.ok ⟨hi, fun _ h => h, fun c hc => absurd hc id⟩
+        | some r => exact (tryMove_rule hb r a s hi).mono (fun _ h => nof h)
+      exact (andThen_rule hfirst (h3 r?)).mono (fun _ h => h.weaken (fun _ hc => absurd hc id))
+  exact (andThen_rule (andThen_rule h0 h1) h23).mono (fun _ h => h.weaken (fun _ hc => absurd hc id))
+
 theorem iterate_rule [DecidableEq M] (hb : BodyOK g p body Inv Cov Qb Qr) (cfg : Cfg) (o : Oracle M) (mg : MG M)
     (hg : GenOK g p) (hord : OrderOK o) (hsorts : ∀ a s k, Inv a s → Inv a { s with sorts := k })
     (a : σ) (s : Eng M) (hi : Inv a s) :
